@@ -19,6 +19,14 @@ type Inner struct {
 	S string
 }
 
+// Tag prints through its String method.
+type Tag struct {
+	Key string
+	N   int
+}
+
+func (t Tag) String() string { return "#" + t.Key + ":" + strconv.Itoa(t.N) }
+
 type Rec struct {
 	Name  string
 	Age   int
@@ -149,6 +157,8 @@ func envOf0(id int) map[string]any {
 		"hx": "0x10", "und": "1_000", "b11": "0b11", "o7": "0o7", "lsp": " 42", "isp": "4 2",
 		"t": r.t, "u": r.u, "off": false,
 		"big": int64(1234567),
+		// a value with a String method (printed through it, whatever way the data is delivered)
+		"sv": Tag{Key: "k" + r.who, N: r.k},
 		// magnitude boundaries
 		"umax": uint64(math.MaxUint64), "u63": uint64(1) << 63, "imax": int64(math.MaxInt64), "imin": int64(math.MinInt64), "u32": uint32(math.MaxUint32),
 		"fbig": 1e21, "negz": math.Copysign(0, -1),
@@ -177,9 +187,9 @@ func envOf0(id int) map[string]any {
 
 // typed catalogue of the paths (the static type of each is the same in every environment)
 var (
-	intPaths    = []string{"a", "b", "z", "n", "m.k", `m["k"]`, `m['k']`, "m.inner.x", `m["inner"].x`, "xs[0]", "xs[2]", "st.Age", "st.In.X", "us[0].age", "us[1].age", "rs[0].Age", "xs[ix]", "m[kx]", "us[ix].age", `errs['item[0][id]']`, `errs["item[0][id]"]`, `errs['sub[x]'].n`, `errs["sub[x]"]["n"]`}
+	intPaths    = []string{"a", "b", "z", "n", "m.k", `m["k"]`, `m['k']`, "m.inner.x", `m["inner"].x`, "xs[0]", "xs[2]", "st.Age", "st.In.X", "us[0].age", "us[1].age", "rs[0].Age", "sv.N", "xs[ix]", "m[kx]", "us[ix].age", `errs['item[0][id]']`, `errs["item[0][id]"]`, `errs['sub[x]'].n`, `errs["sub[x]"]["n"]`}
 	floatPaths  = []string{"f", "g", "zf", "m.rate", `m['rate']`, "fs[0]", "fs[1]", "st.Score", "rs[0].Score"}
-	stringPaths = []string{"s", "h", "e", "num", "m.name", `m["name"]`, `m['name']`, "m.inner.s", "ss[0]", "ss[1]", "st.Name", "st.In.S", "us[0].name", "us[1].name", "rs[0].Name", "sp", "sp2", "spl", "spt", "ss[ix]", "m[kk]", "us[ix].name",
+	stringPaths = []string{"s", "h", "e", "num", "m.name", `m["name"]`, `m['name']`, "m.inner.s", "ss[0]", "ss[1]", "st.Name", "st.In.S", "us[0].name", "us[1].name", "rs[0].Name", "sv.Key", "sp", "sp2", "spl", "spt", "ss[ix]", "m[kk]", "us[ix].name",
 		`errs['user[email]']`, `errs["user[email]"]`, `errs['tags[]']`, `errs["tags[]"]`, `errs['a.b']`, `errs["a.b"]`, `errs['two words']`, `errs["it's"]`, `errs['say "hi"']`, `errs['[']`, `errs["]"]`, `errs['sub[x]'].s`, `errs["sub[x]"]['k.e-y']`, `errs['sub[x]']["s"]`}
 	boolPaths = []string{"t", "u", "off", "m.ok", `m["ok"]`, "bs[0]", "bs[1]", "st.Ok", "us[0].admin", "us[1].admin", "rs[0].Ok", "bs[ix]", "m[kb]", `errs['ok[]']`, `errs["ok[]"]`}
 	listPaths = []string{"xs", "ss", "fs", "bs"}
